@@ -347,7 +347,7 @@ RECURSIVE CaseExprs(_,_,_,_)
 RECURSIVE BuildMap(_,_,_,_,_)
 RECURSIVE RunDefers(_,_)
 RECURSIVE TryArgs(_,_,_,_)
-RECURSIVE MapCB(_,_,_,_,_,_)
+RECURSIVE MapCB(_,_,_,_,_,_,_)
 RECURSIVE PipeStages(_,_,_,_)
 RECURSIVE TmplParts(_,_,_,_)
 RECURSIVE InsertSorted(_,_,_)
@@ -501,10 +501,15 @@ CallBuiltin(n, args, s) ==
                     ELSE Unknown(s)
     [] OTHER -> Unknown(s)
 
-\* list.map / filter / each: callback receives (value) or (index, value)
-MapCB(kind, f, items, i, s, acc) ==
-  IF i > Len(items) THEN
+\* list.map / filter / each: callback receives (value) or (index, value).  The builtin walks the list's storage as it
+\* was when the call began (`for i, value := range ls.items`): as many steps as the list had items then (n), each item
+\* READ when its step comes - a callback that assigns to an element not yet reached is seen; a callback that changes
+\* the LENGTH of the list may move it to other storage, which is outside the model
+MapCB(kind, f, self, n, i, s, acc) ==
+  IF i > n THEN
      (IF kind = "each" THEN Ok(VNil, s) ELSE NewList(acc, s))
+  ELSE LET items == Items(self, s) IN
+       IF Len(items) # n THEN Unknown(s)
   ELSE LET np == Len(f.params)
            \* only map passes (index, value) to a two-parameter callback
            cargs == IF kind = "map" /\ np = 2 THEN <<VInt(i - 1), items[i]>> ELSE <<items[i]>>
@@ -512,7 +517,7 @@ MapCB(kind, f, items, i, s, acc) ==
        IF r.k = "unknown" THEN r
        ELSE IF r.k # "ok" THEN (IF r.k = "raise" THEN Demote(r) ELSE Unknown(r.s))
        ELSE IF r.v.t = "error" THEN Unknown(r.s)
-       ELSE MapCB(kind, f, items, i + 1, r.s,
+       ELSE MapCB(kind, f, self, n, i + 1, r.s,
                   IF kind = "map" THEN Append(acc, r.v)
                   ELSE IF kind = "filter" /\ Truthy(r.v, r.s) THEN Append(acc, items[i]) ELSE acc)
 
@@ -539,7 +544,7 @@ CallMethod(m, args, s) ==
             IF Len(args) # 1 THEN Raise("args error", s)
             ELSE IF args[1].t # "fn" THEN (IF args[1].t \in {"builtin", "method"} THEN Unknown(s) ELSE Raise("type error", s))
             ELSE IF m.n = "map" /\ (Len(args[1].params) < 1 \/ Len(args[1].params) > 2) THEN Raise("type error", s)
-            ELSE MapCB(m.n, args[1], items, 1, s, <<>>)
+            ELSE MapCB(m.n, args[1], self, Len(items), 1, s, <<>>)
       [] OTHER -> Unknown(s)
   ELSE IF self.t = "map" THEN
     LET mm == MapOf(self, s) IN
